@@ -729,8 +729,11 @@ def _coarse(cls):
 
 
 def _minimise(viol):
-    # smallest first; the runner caps per task
-    return sorted(viol, key=lambda c: (len(c["defs"]), sum(map(len, c["frags"])), c["filter"][0]))
+    # cases no classifier explains first, then smallest first; the runner caps the list per task
+    return sorted(
+        viol,
+        key=lambda c: (any(f(c) for f in CLASSIFIERS.values()), len(c["defs"]), sum(map(len, c["frags"])), c["filter"][0]),
+    )
 
 
 def _selftest(sh, tier):
